@@ -34,6 +34,17 @@ import Y0.Model.Expr
 
 namespace Y0
 
+/-! ### stable sorting (Python's `sorted`) -/
+
+/-- insert `x`, which precedes every element of the list in the input, before the first element that is not
+strictly smaller: equal keys keep their input order -/
+def insertStable {α} (lt : α → α → Bool) (x : α) : List α → List α
+  | [] => [x]
+  | y :: ys => if lt y x then y :: insertStable lt x ys else x :: y :: ys
+
+/-- stable insertion sort = the unique result of any stable sorting algorithm (`sorted`) -/
+def sortStable {α} (lt : α → α → Bool) (l : List α) : List α := l.foldr (insertStable lt) []
+
 /-! ### equality (`==` of the dataclasses) -/
 
 mutual
@@ -141,7 +152,7 @@ def Expr.ltE (a b : Expr) : Bool := Key.lt a.key b.key
 /-! ### variables -/
 
 /-- `_upgrade_ordering`: `_sorted_variables(set(...))` -/
-def upgradeOrdering (vs : List Var) : List Var := sortBy Var.keyLt (dedup' vs)
+def upgradeOrdering (vs : List Var) : List Var := sortStable Var.keyLt (dedup' vs)
 
 def Iv.toVar (i : Iv) : Var := { name := i.name, star := some i.star, isIv := true }
 
@@ -193,7 +204,7 @@ def productSafe (es : List Expr) : Expr :=
   else match es with
     | [] => .one
     | [e] => e
-    | _ => .prod (sortBy Expr.ltE es)
+    | _ => .prod (sortStable Expr.ltE es)
 
 /-! ### Sum.safe / Sum.simplify -/
 
